@@ -10,7 +10,7 @@
 (* != is its negation; contains is "exists ==" ; exactly five false-like   *)
 (* shapes; && and || return one of their operands.                         *)
 (***************************************************************************)
-EXTENDS JMES, Json, Toks, DocsEq, SequencesExt
+EXTENDS JMES, Json, Toks, DocsEq, SequencesExt, Decimal
 
 CONSTANTS Emit, Prop
 V == PoolEq
@@ -79,6 +79,26 @@ LawCarriers == << <<"json", "json", "json", "json", "json", "json", "json", "jso
                   <<"json", "decimal", "floatany", "floatany", "floatany", "floatany", "int64", "floatany", "uint64">>,
                   <<"decimal", "json", "decimal", "floatany", "json", "decimal", "json", "int64", "json">> >>
 
+\* Integers that differ by a multiple of 2^32, 2^63 or 2^64 (what a fast path on machine words conflates):
+\* the values u + k * 2^w are computed with the digit-sequence arithmetic of Decimal.tla, all have at most 34
+\* digits and are pairwise different (WrapValuesDistinct), so here the relation IS pinned: expressions of one
+\* class are equal, expressions of different classes are not.  Three spellings per value.
+P32 == <<4,2,9,4,9,6,7,2,9,6>>
+P63 == <<9,2,2,3,3,7,2,0,3,6,8,5,4,7,7,5,8,0,8>>
+P64 == <<1,8,4,4,6,7,4,4,0,7,3,7,0,9,5,5,1,6,1,6>>
+WrapBases == << <<5>>, <<9,9,9>>, <<4,2,9,4,9,6,7,2,9,5>>, <<3>> \o Zeros(18), <<9>> \o Zeros(18), <<1>> \o Zeros(19),
+                <<1,2,3,4,5,6,7,8,9,0,1,2,3,4,5,6,7,8,9>>, <<1,7>> \o Zeros(18) >>
+WrapOf(u) == << u, NAdd(u, P64), NAdd(u, NMul(P64, <<2>>)), NAdd(u, NMul(P64, <<1,0>>)), NAdd(u, P32), NAdd(u, P63), NAdd(u, NMul(P64, P32)) >>
+WrapVals(b) == WrapOf(WrapBases[b])
+DigCps(d) == [i \in 1..Len(d) |-> 48 + d[i]]
+WrapExprs(b) == LET vs == WrapVals(b) IN
+  [i \in 1..(3 * Len(vs)) |->
+     LET d == DigCps(vs[((i - 1) \div 3) + 1]) IN
+     CASE i % 3 = 1 -> <<96>> \o d \o <<96>>
+       [] i % 3 = 2 -> <<96>> \o d \o <<46,48,96>>
+       [] OTHER     -> <<96>> \o d \o <<96,32,43,32,96,48,96>>]
+WrapClasses(b) == [i \in 1..(3 * Len(WrapVals(b))) |-> ((i - 1) \div 3) + 1]
+
 Check == idx > 0 =>
   IF idx <= N
   THEN LET i == bucket  j == idx
@@ -108,4 +128,8 @@ Check == idx > 0 =>
                    PrintT("CASE " \o ToJson([p |-> Prop, kind |-> "eqlaws", exprs |-> LawExprsRange, doc |-> LawDoc, carriers |-> LawCarriers[1]]))
              /\ (Emit /\ i = 1) =>
                    PrintT("CASE " \o ToJson([p |-> Prop, kind |-> "eqlaws", exprs |-> LawExprsOver, doc |-> LawDoc, carriers |-> LawCarriers[1]]))
+             /\ (Emit /\ i <= Len(WrapBases)) =>
+                   PrintT("CASE " \o ToJson([p |-> Prop, kind |-> "eqlaws", exprs |-> WrapExprs(i), classes |-> WrapClasses(i), doc |-> LawDoc, carriers |-> LawCarriers[1]]))
+             /\ Named(i > Len(WrapBases) \/ LET vs == WrapVals(i) IN
+                        \A x, y \in 1..Len(vs) : (x # y => NCmp(vs[x], vs[y]) # 0) /\ Len(vs[x]) <= 34, "WrapValuesDistinct")
 =============================================================================
